@@ -26,6 +26,7 @@ type seqSpec struct {
 	workers    int    // nats
 	lockstep   bool
 	restricted bool
+	note       string        // probes: what the sequence is about
 	watermark  time.Duration // nats: server high watermark, with handlers slow enough to build a backlog older than it
 	abort      *request      // pipe/tcp: sent on an extra connection that is closed at once, before the reply can be read
 	burst      bool          // probe: all frames of a connection written with one Write
@@ -52,7 +53,7 @@ func (s *seqSpec) abortNote() string {
 
 func (s *seqSpec) describe() map[string]interface{} {
 	return map[string]interface{}{"sequence": s.id, "leg": s.leg, "proto": s.proto, "mode": s.mode, "conns": s.conns,
-		"nats_workers": s.workers, "nats_high_watermark": s.watermark.String(), "lockstep": s.lockstep, "kinds": s.shape(), "json_stream_restricted": s.restricted,
+		"note": s.note, "nats_workers": s.workers, "nats_high_watermark": s.watermark.String(), "lockstep": s.lockstep, "kinds": s.shape(), "json_stream_restricted": s.restricted,
 		"one_write_burst": s.burst, "regenerate": fmt.Sprintf("VERIF_SEED=<seed> ./check C14 <tier> --seq %d (ids >= 1000000 are the fixed probes)", s.id)}
 }
 
